@@ -400,7 +400,7 @@ def c17(run, vc):
     run.add_replay(s, "timestamp proofs: every timestamp class x delay x timeout (checked build)", pk, lambda v: True)
     # every verify function and every share combiner on the checked build (debug assertions and overflow checks on
     # the paths the other properties only exercise in release): quick = an evenly spaced sample, thorough = all
-    cap = 1200 if tier == "quick" else 10 ** 9
+    cap = 1200 if tier == "quick" else 30000
     for module, cfg, keep, label in (
         ("MC_SigNet", "MC_SigNet_single_%s.cfg" % tier, lambda v: v["act"] in ("Verify", "Sign"), "single verification and signing, honest and tampered"),
         ("MC_SigNet", "MC_SigNet_pop_%s.cfg" % tier, lambda v: v["act"] in ("PopVerify", "PopProve"), "proofs of possession"),
@@ -419,7 +419,7 @@ def c17(run, vc):
         vs = vs[::step]
         s = only_aborts(vc.replay(vs, "c17_" + cfg.replace(".cfg", ""), tables, profiles="5", build="checked"))
         run.add_replay(s, label + " (checked build, aborts only)", vs, lambda v: True)
-    return run.finish(rule="vectors = every transition of the Codec model (all mutations incl. every truncation length, every consumer of every decoded value, all 256 byte-OR values of the zero test at 6 import sites) on the plain release build and on a build with overflow checks and debug assertions; plus, on the checked build, the abort sites of the protocol modules: crafted LEB128 prefixes inside valid signcryption ciphertexts, truncated / empty / extended payloads, every W region of time-lock ciphertexts, every (timestamp, delay, timeout) class, and (an evenly spaced sample in the quick tier, all in the thorough tier) the transitions of SigNet, Threshold, ElGamal, SignCrypt share handling and Pok; trace = random and mutated inputs to every decoder on both builds, validated by TLC (no Abort outcome exists in the specification)",
+    return run.finish(rule="vectors = every transition of the Codec model (all mutations incl. every truncation length, every consumer of every decoded value, all 256 byte-OR values of the zero test at 6 import sites) on the plain release build and on a build with overflow checks and debug assertions; plus, on the checked build, the abort sites of the protocol modules: crafted LEB128 prefixes inside valid signcryption ciphertexts, truncated / empty / extended payloads, every W region of time-lock ciphertexts, every (timestamp, delay, timeout) class, and (an evenly spaced sample: 1 200 vectors per stage in the quick tier, 30 000 in the thorough tier) the transitions of SigNet, Threshold, ElGamal, SignCrypt share handling and Pok; trace = random and mutated inputs to every decoder on both builds, validated by TLC (no Abort outcome exists in the specification)",
                       assumptions=["panics are observed under catch_unwind; non-termination would show as a timeout (exit 2)", "dependency calls are total per their contract"])
 
 
